@@ -445,7 +445,14 @@ func (state *RuntimeState) validateUserTOTP(username string, OTPValue int, t tim
 	userRateLimit.failCount++
 	//every 5th bad try, make it wait an extra hour
 	if userRateLimit.failCount%numFailedTOTPChecksForTimeoutIncrease == 0 {
-		userRateLimit.lockoutExpirationTime.Add(time.Duration(3600) * time.Second)
+		// time.Time.Add returns the new value: the result was discarded and
+		// the lockout never engaged.
+		if userRateLimit.lockoutExpirationTime.Before(time.Now()) {
+			userRateLimit.lockoutExpirationTime = time.Now()
+		}
+		userRateLimit.lockoutExpirationTime =
+			userRateLimit.lockoutExpirationTime.Add(
+				time.Duration(3600) * time.Second)
 	}
 	userRateLimit.lastFailTime = time.Now()
 	state.totpLocalTateLimitMutex.Lock()
